@@ -18,7 +18,7 @@ def check(run, replay=None):
     builds = c02.BUILDS_QUICK if tier == "quick" else c02.BUILDS_THOROUGH
     exes = c02.build_all(run, builds, "-fopenmp", tag="_omp")
     model = os.path.join(C.OCAML, "driver_c02.exe")
-    threads = [1, 2, 3, 16] if tier == "quick" else list(range(1, 17))
+    threads = [1, 2, 3, 16] if tier == "quick" else [1, 2, 3, 4, 5, 7, 8, 11, 13, 16]
     nontriv = set()
     hook_seen = 0
     crashed = False
@@ -34,7 +34,7 @@ def check(run, replay=None):
             for n in range(1, 3 * M + 3):
                 for m in ([1, M + 1, 3 * M + 2] if tier == "quick" else range(1, 3 * M + 3)):
                     cases.append(gen_case(rng, M, n, m))
-            cases += [gen_case(rng, M, rng.randrange(M + 1, 5 * M), rng.randrange(M + 1, 5 * M)) for _ in range(40 if tier == "quick" else 400)]
+            cases += [gen_case(rng, M, rng.randrange(M + 1, 5 * M), rng.randrange(M + 1, 5 * M)) for _ in range(40 if tier == "quick" else 200)]
             threads_here = threads
         for k in threads_here:
             se = c02.compare(run, label + ":threads=%d" % k, M, exes[label][0], cases, model, CID, args=str(k), what="OpenMP (%d threads)" % k)
